@@ -409,6 +409,7 @@ func (c *Ctx) errBlocks(r *Report, pa *ssa.Function, facts *Facts) {
 			}
 			// find the tests of the value
 			flows := map[ssa.Value]bool{}
+			flowCtx = c
 			for _, ev := range evs {
 				for v := range flowsTo(ev) {
 					flows[v] = true
